@@ -102,6 +102,8 @@ def features_strategy(draw, tier):
                 t[c][b[-1]] = t[c][b[0]]
             t["closed_loop"] = True
     return {"tree": t, "form": draw(st.sampled_from(["single", "list", "dict"])),
+            # the extractor first refused a request (an unknown feature name, alone or in the middle of a list / dict request)
+            "refused_first": draw(st.integers(0, 2)) == 0,
             # the measured tree is derived from another tree that was itself measured first: re-rooted, re-sorted,
             # joined with a small second tree, or a copy re-parented in place through a node handle
             "derive": draw(st.sampled_from([None, None, None, "redirect", "sort", "cat", "copy-reparent"])),
@@ -278,6 +280,14 @@ def run_features(case, ctx):
         "path_length": pf.get_length(), "path_tortuosity": pf.get_tortuosity(),
     }
     ctx.cls("front-end:" + case["form"])
+    if case.get("refused_first"):
+        for req in ("no_such_feature", ["length", "no_such_feature", "node_count"], {"tip_count": {}, "no_such_feature": {}},
+                    [("branch_length", {}), ("no_such_feature", {})]):
+            try:
+                fe.get(req)
+            except Exception:  # noqa - the refusal itself is judged at the end of this function
+                pass
+        ctx.cls("front-end-asked-after-a-refused-request")
     if case["form"] == "single":
         got = {k: ctx.lib(f"extract_feature.get[{k}]", fe.get, k) for k in NAMES}
     elif case["form"] == "list":
@@ -595,7 +605,7 @@ def run_population(case, ctx):
 SUBCHECKS = [
     Sub("features", features_strategy, run_features, quick=2000, thorough=20000, shards_quick=4,
         required={"furcations>=2": 150, "zero-length-segment": 80, "non-soma-root": 20, "rootdeg:1": 40,
-                  "rootdeg:3+": 40, "single-node": 3, "front-end:list": 50, "front-end:dict": 50,
+                  "rootdeg:3+": 40, "single-node": 3, "front-end:list": 50, "front-end-asked-after-a-refused-request": 150, "front-end:dict": 50,
                   "branch:zero-length": 5, "measured-tree-derived-from-a-measured-tree": 400, "derived-by:redirect": 60,
                   "derived-by:sort": 60, "derived-by:cat": 60, "derived-by:copy-reparent": 60,
                   "a-branch-or-path-ends-where-it-starts": 150}),
